@@ -63,6 +63,31 @@ CHECKS = {
         note="Budget B(n)=2e6+15000n steps (>=60x the calibrated maximum, calibration re-measured each run); wall clock "
              "never decides. Damaged-input crash sites have a long tail: only the sites reached by this workload are judged.",
         design="§3.1 M-STEP, §4.5"),
+    "C12": dict(
+        technique="relational runtime check: token sequences recorded by the lexer monitor (M-LEX) on a text and its respelt / spliced twin",
+        text="On generated programs, random subsets of punctuator occurrences (IR-known) are respelt as digraphs/trigraphs "
+             "and random subsets of token boundaries receive backslash-newline or ??/-newline; the (type, value) "
+             "sequences recorded from the real lexer must be equal. Braces/brackets are also respelt through the whole "
+             "pipeline and the observations compared modulo column. Every operator spelling with trigraph/digraph parts "
+             "is enumerated and must lex to the same single token (longest match).",
+        note="Respellings next to < > % : ? = are skipped (C itself would form another token there); splices are not put "
+             "after // comments or between two identifier-like tokens.",
+        design="§4.12"),
+    "C13": dict(
+        technique="runtime monitor counting INVALID_HEADER events over stdheader template instances and their structural mutants",
+        text="The stdheader template is re-implemented independently and instantiated with random logins, mail domains, "
+             "file names (1-60 chars, truncated as the plugin does) and time stamps in front of generated conforming "
+             "bodies: the monitored run must emit INVALID_HEADER 0 times; each of 27 single structural mutations must "
+             "produce it exactly once.",
+        note="Trusts the re-implemented template (oracle.header42_lines).",
+        design="§4.13"),
+    "C14": dict(
+        technique="runtime monitor on HEADER_PROT_* events over generated headers, guard mutations and .c twins",
+        text="Generated conforming headers under random base names over [a-z_][a-z0-9_.]* carry the correct guard or one "
+             "of 8 guard mutations; the set of HEADER_PROT_* codes emitted by the monitored run must contain the expected "
+             "one, be empty for the correct guard, and be empty for the same text under a .c name.",
+        note="A leading digit in the base name is excluded (the guard would not be an identifier).",
+        design="§4.14"),
     "C17": dict(
         technique="relational runtime check: observations (M-DIAG) of paired executions on a file and its literal/comment-replaced twin",
         text="For generated conforming and violating files, the body of random subsets of comment, string and character "
